@@ -1482,6 +1482,21 @@ class SpaceManager(SharedSpaceOperations):
             )
             define = False  # Do not define derived cells
 
+    def set_cells_allow_none(self, cells, value):
+        """Set allow_none of cells and of the sub cells derived from it"""
+        for space in self._get_subs(cells.parent, skip_self=False):
+            c = space.cells.get(cells.name)
+            if c is None:
+                continue
+            if c is not cells:
+                if c.is_defined():
+                    continue
+                bases = self.get_deriv_bases(c, defined_only=True)
+                if not bases or bases[0] is not cells:
+                    continue
+            space.clear_subs_rootitems()
+            c.allow_none = value
+
     def set_cells_formula(self, cells, func):
         if not isinstance(func, Formula):
             # Raise errors before clearing the values
